@@ -81,6 +81,7 @@ SOpa(l, op, e)    == [s |-> "opa", l |-> l, op |-> op, e |-> e]
 SInc(l, op)       == [s |-> "inc", l |-> l, op |-> op]
 SDef2(xs, e)      == [s |-> "def2", xs |-> xs, e |-> e]
 SAsg2(ls, es)     == [s |-> "asg2", ls |-> ls, es |-> es]
+SDefP(xs, es)     == [s |-> "defp", xs |-> xs, es |-> es]                   \* a, b := e1, e2
 SMGet(v, ok, m, k, def) == [s |-> "mget", v |-> v, ok |-> ok, m |-> m, k |-> k, def |-> def]
 PV(e)             == [f |-> "v", e |-> e, s |-> ""]
 PT(e)             == [f |-> "T", e |-> e, s |-> ""]
@@ -511,6 +512,10 @@ ExecS(s, env, st) ==
     [] s.s = "opa" -> LET r == Eval(Bin(s.op, s.l, s.e), env, st) IN ES(env, AssignTo(s.l, r.v, env, r.st))     \* x op= e is x = x op e
     [] s.s = "inc" -> LET r == Eval(Bin(s.op, s.l, Lit(1)), env, st) IN ES(env, AssignTo(s.l, r.v, env, r.st)) \* x++ is x = x + 1
     [] s.s = "def2" -> LET r == Eval(s.e, env, st)
+                       IN  IF ~Running(r.st) THEN ES(env, r.st)
+                           ELSE IF Len(r.vs) # Len(s.xs) THEN ES(env, Out(r.st))
+                           ELSE FoldLeft(LAMBDA acc, i : DefVar(acc.env, acc.st, s.xs[i], Untype(r.vs[i])), ES(env, r.st), Upto(Len(s.xs)))
+    [] s.s = "defp" -> LET r == EvalSeq(s.es, env, st)                \* all values first, in the order written
                        IN  IF ~Running(r.st) THEN ES(env, r.st)
                            ELSE IF Len(r.vs) # Len(s.xs) THEN ES(env, Out(r.st))
                            ELSE FoldLeft(LAMBDA acc, i : DefVar(acc.env, acc.st, s.xs[i], Untype(r.vs[i])), ES(env, r.st), Upto(Len(s.xs)))
